@@ -505,4 +505,150 @@ Proof.
         rewrite (doc_mult_char feas (fun ls => negb (exI design crossing excl ls)) w mult Hv Hkf' Hmult xm). reflexivity.
 Qed.
 
+(** * the created flat record lies in the fragment F1 of the compilation theorem *)
+Lemma filter_all : forall {A} (P : A -> bool) l, (forall x, In x l -> P x = true) -> filter P l = l.
+Proof. intros A P l H. induction l as [|x l IH]; [reflexivity|]. cbn. rewrite (H x (or_introl eq_refl)). f_equal. apply IH. intros y Hy. apply H. right. exact Hy. Qed.
+
+Lemma list_nat_nodup_of : forall l, NoDup l -> list_nat_nodup l = true.
+Proof.
+  induction l as [|x l IH]; intro H; [reflexivity|]. inversion H; subst. cbn. rewrite IH by assumption. rewrite andb_true_r.
+  apply negb_true_iff. apply existsb_false. intros y Hy. apply Nat.eqb_neq. intro E. subst. contradiction.
+Qed.
+
+Lemma st_act_ci : st_act (the_ci p design crossing ics rcc ef) = seq 0 (List.length design).
+Proof.
+  unfold st_act. cbn [the_ci ci_design]. unfold fds. rewrite map_length. apply filter_all. intros i _.
+  unfold implied. rewrite nth_error_map. destruct (nth_error design i); reflexivity.
+Qed.
+
+(** positive k on AtLeastKInARow / ExactlyKInARow (the fragment F1 asks for it) *)
+Definition kpos (c : pcons) : Prop :=
+  match c with PKRow DocSem.RAtLeast k _ | PKRow DocSem.RExactlyRow k _ => 0 < k | _ => True end.
+
+Section InF1.
+Variable T : nat.
+Hypothesis HT : 0 < T.
+Variable fb : flat.
+Hypothesis Hd : fl_design fb = fds.
+Hypothesis Hact : fl_act fb = seq 0 (List.length design).
+Hypothesis Hc : fl_crossings fb = [cr].
+Hypothesis Hs : fl_sustains fb = [1].
+Hypothesis Htr : fl_trials fb = T.
+Hypothesis Hal : fl_alignment fb = EqualPreamble.
+Variable g : geometry.
+Hypothesis Hgt : g_trials g = T.
+Hypothesis Hgp : g_preamble g = 0.
+Hypothesis Hgs : forall kv, In kv (g_sustain g) -> snd kv = 1.
+
+Lemma isact_lt : forall i, i < List.length design -> isact fb i = true.
+Proof. intros i Hi. unfold isact. rewrite Hact. apply existsb_exists. exists i. split; [apply in_seq; lia|apply Nat.eqb_refl]. Qed.
+
+Lemma factor_at_design : forall i f, nth_error design i = Some f -> Layout.factor_at fb i = Some (mkff p f).
+Proof. intros i f H. unfold Layout.factor_at. rewrite Hd. apply nth_error_mkff. exact H. Qed.
+
+Lemma nlevels_design : forall i f, nth_error design i = Some f -> Layout.nlevels fb i = nlv p f.
+Proof. intros i f H. unfold Layout.nlevels. rewrite (factor_at_design i f H). unfold mkff, nlv. cbn. apply map_length. Qed.
+
+Lemma stride1_all : forall i, stride1 fb i = true.
+Proof.
+  intro i. unfold stride1, Layout.factor_at. rewrite Hd. unfold fds. rewrite nth_error_map. destruct (nth_error design i); reflexivity.
+Qed.
+
+Lemma not_complex_all : forall i, Layout.is_complex fb i = false.
+Proof.
+  intro i. unfold Layout.is_complex, Layout.factor_at. rewrite Hd. unfold fds. rewrite nth_error_map. destruct (nth_error design i); reflexivity.
+Qed.
+
+Lemma geom_ok_g : geom_ok fb (Some g) = true.
+Proof.
+  unfold geom_ok, map_block_trial_ranges. rewrite Hgt, Hgp, Hal.
+  replace (T <=? 0) with false by (symmetry; apply Nat.leb_gt; exact HT). reflexivity.
+Qed.
+
+Lemma windows_g' : windows_of fb (Some g) = [(0, T)].
+Proof. exact (windows_g T HT fb Htr Hal g Hgt Hgp). Qed.
+
+Lemma trials_of_nonempty : forall f, match trials_of fb f 0 T with [] => false | _ => true end = true.
+Proof.
+  intro f. unfold trials_of. rewrite Nat.sub_0_r. rewrite filter_all.
+  - destruct T; [lia|reflexivity].
+  - intros t _. apply applies_at_simple. apply (all_not_derived p design fb Hd).
+Qed.
+
+Lemma ranges_g : map_block_trial_ranges fb (Some g) = Some [(0, T)].
+Proof.
+  unfold map_block_trial_ranges. rewrite Hgt, Hgp, Hal.
+  replace (T <=? 0) with false by (symmetry; apply Nat.leb_gt; exact HT). cbn [andb].
+  unfold trials. rewrite Htr, Nat.sub_0_r. destruct T as [|T']; [lia|]. cbn [ranges_loop].
+  replace (0 <? Datatypes.S T') with true by (symmetry; apply Nat.ltb_lt; lia). unfold trials. rewrite Htr, Nat.min_id.
+  rewrite Nat.add_0_l, Nat.ltb_irrefl. destruct T'; reflexivity.
+Qed.
+
+Lemma list_sum_ge_in : forall x l, In x l -> x <= list_sum l.
+Proof. intros x l H. induction l as [|y l IH]; [contradiction|]. rewrite list_sum_cons. destruct H as [->|H]; [lia|specialize (IH H); lia]. Qed.
+
+Lemma vps_pos : forall pf f, nth_error design pf = Some f -> 0 < variables_per_sample fb.
+Proof.
+  intros pf f Hnth. unfold variables_per_sample. rewrite Hact. rewrite (fold_add_sum (fun f0 => variables_for_factor fb f0 0 0)). cbn [Nat.add].
+  assert (Hpf : pf < List.length design) by (apply nth_error_Some; congruence).
+  assert (Hv : 0 < variables_for_factor fb pf 0 0).
+  { unfold variables_for_factor. cbn [Nat.eqb]. unfold trials. rewrite Htr, Nat.sub_0_r.
+    rewrite (fold_cond_sum (fun t => applies_at fb pf t) (fun _ => Layout.nlevels fb pf)). cbn [Nat.add].
+    rewrite filter_all by (intros t _; apply applies_at_simple; apply (all_not_derived p design fb Hd)).
+    rewrite (nlevels_design pf f Hnth). destruct T as [|T']; [lia|]. cbn [seq map]. rewrite list_sum_cons.
+    assert (0 < nlv p f) by (apply Hlev; eapply nth_error_In; eauto). lia. }
+  assert (Hin : In (variables_for_factor fb pf 0 0) (map (fun f0 => variables_for_factor fb f0 0 0) (seq 0 (List.length design)))).
+  { apply in_map_iff. exists pf. split; [reflexivity|apply in_seq; lia]. }
+  pose proof (list_sum_ge_in _ _ Hin). lia.
+Qed.
+
+Lemma pin_trials_ok : forall pf ix,
+  match get_trial_numbers fb pf ix (Some g) with Some ps => forallb (fun p0 => p0 <? fl_trials fb) ps | None => false end = true.
+Proof.
+  intros pf ix. unfold get_trial_numbers. rewrite ranges_g. cbn [option_map flat_map fst snd]. rewrite (geometry_sustain_g fb g Hgs).
+  rewrite app_nil_r. destruct (_ && _)%Z eqn:E; [|reflexivity]. cbn [seq map forallb]. rewrite andb_true_r, Htr.
+  apply andb_true_iff in E. destruct E as [E1 E2]. apply Z.leb_le in E1. apply Z.ltb_lt in E2. apply Nat.ltb_lt. destruct (ix <? 0)%Z; lia.
+Qed.
+
+Lemma constraint_f1_one : forall c ic, plain_constraint p design c = Some ic -> kpos c ->
+  forallb (constraint_f1 fb) (map (init_wb g) (desugar_constraint fds ic)) = true.
+Proof.
+  intros c ic H Hk. unfold plain_constraint in H.
+  destruct c as [kd k [f n|f]|f n|ix f n|f|fs|t| |kind]; try discriminate.
+  - destruct (fpos design f) as [pf|] eqn:Ef; [|discriminate]. destruct (lpos p f n) as [l|] eqn:El; [|discriminate]. inversion H; subst ic.
+    destruct (fpos_pos design f pf Ef) as [_ [Hnth Hfd]]. destruct (lpos_level p design Hsimple f n l Hfd El) as [_ [Hl _]].
+    assert (Hpf : pf < List.length design) by (apply nth_error_Some; congruence).
+    assert (Hll : (l <? Layout.nlevels fb pf) = true) by (rewrite (nlevels_design pf f Hnth); apply Nat.ltb_lt; exact Hl).
+    cbn [desugar_constraint map forallb]. rewrite andb_true_r.
+    destruct kd; cbn [krow_of mk_krow init_wb constraint_f1 kpos] in *;
+      rewrite ?(isact_lt pf Hpf), ?Hll, ?geom_ok_g, ?stride1_all, ?windows_g'; cbn [andb forallb fst snd];
+      rewrite ?trials_of_nonempty; try reflexivity; (replace (0 <? k) with true by (symmetry; apply Nat.ltb_lt; exact Hk)); reflexivity.
+  - destruct (fpos design f) as [pf|] eqn:Ef; [|discriminate]. inversion H; subst ic.
+    destruct (fpos_pos design f pf Ef) as [_ [Hnth Hfd]].
+    assert (Hpf : pf < List.length design) by (apply nth_error_Some; congruence).
+    assert (Enl : nlevels_of fds pf = nlv p f).
+    { unfold nlevels_of, fds. rewrite (nth_error_mkff p design pf f Hnth). unfold mkff, nlv. cbn. apply map_length. }
+    cbn [desugar_constraint option_map]. rewrite Enl, map_map. apply forallb_forall. intros x Hx. apply in_map_iff in Hx.
+    destruct Hx as [l [<- Hl]]. apply in_seq in Hl.
+    assert (Hll : (l <? Layout.nlevels fb pf) = true) by (rewrite (nlevels_design pf f Hnth); apply Nat.ltb_lt; lia).
+    destruct kd; cbn [krow_of mk_krow init_wb constraint_f1 kpos] in *;
+      rewrite ?(isact_lt pf Hpf), ?Hll, ?geom_ok_g, ?stride1_all, ?windows_g'; cbn [andb forallb fst snd];
+      rewrite ?trials_of_nonempty; try reflexivity; (replace (0 <? k) with true by (symmetry; apply Nat.ltb_lt; exact Hk)); reflexivity.
+  - destruct (fpos design f) as [pf|] eqn:Ef; [|discriminate]. destruct (lpos p f n) as [l|] eqn:El; [|discriminate]. inversion H; subst ic.
+    destruct (fpos_pos design f pf Ef) as [_ [Hnth Hfd]]. destruct (lpos_level p design Hsimple f n l Hfd El) as [_ [Hl _]].
+    assert (Hpf : pf < List.length design) by (apply nth_error_Some; congruence).
+    cbn [desugar_constraint map forallb init_wb constraint_f1]. rewrite (isact_lt pf Hpf), (nlevels_design pf f Hnth), stride1_all.
+    replace (l <? nlv p f) with true by (symmetry; apply Nat.ltb_lt; exact Hl). reflexivity.
+  - destruct (fpos design f) as [pf|] eqn:Ef; [|discriminate]. destruct (lpos p f n) as [l|] eqn:El; [|discriminate]. inversion H; subst ic.
+    destruct (fpos_pos design f pf Ef) as [_ [Hnth Hfd]]. destruct (lpos_level p design Hsimple f n l Hfd El) as [_ [Hl _]].
+    assert (Hpf : pf < List.length design) by (apply nth_error_Some; congruence).
+    cbn [desugar_constraint map forallb init_wb constraint_f1].
+    rewrite (isact_lt pf Hpf), (nlevels_design pf f Hnth), geom_ok_g, (geometry_sustain_g fb g Hgs), pin_trials_ok.
+    replace (l <? nlv p f) with true by (symmetry; apply Nat.ltb_lt; exact Hl).
+    replace (0 <? variables_per_sample fb) with true by (symmetry; apply Nat.ltb_lt; apply (vps_pos pf f Hnth)). reflexivity.
+  - inversion H; subst ic. reflexivity.
+Qed.
+
+End InF1.
+
 End Main.
